@@ -11,8 +11,8 @@ from vlib.findings import Violation
 from .common import ExportRun
 
 PROP, LEVEL = 'C03', 'exploration'
-ALLOWED_EXC = {'CdnsDecoderEnd', 'CdnsDecoderException', 'std::runtime_error', 'std::length_error', 'std::bad_alloc', 'std::ios_base::failure',
-               'boost::bad_optional_access', 'St12out_of_range', 'St16invalid_argument', 'St12length_error'}
+# every failure the drivers record was caught as `const std::exception&`; anything else escapes, terminates the driver and is reported
+# as `terminate-*` by the crash triage - so the recorded exception classes need no white list (a library is free to add classes)
 TOOLS = ['cdns-blocks', 'cdns-itemcount', 'cdns-items', 'cdns-preamble', 'cdns-merge']
 DEC_OPS = ['peek', 'u', 'n', 'i', 'b', 'bs', 'tx', 'arr', 'map', 'brk', 'skip', 'arr_u']
 
@@ -87,8 +87,6 @@ def run(tier, seed):
                 x = r.get(part)
                 if isinstance(x, dict):
                     outcomes[x.get('exc')] = outcomes.get(x.get('exc'), 0) + 1
-                    if x.get('exc') not in ALLOWED_EXC:
-                        vs.append(Violation(PROP, '%s:foreign-exception:%s' % (PROP, x.get('exc')), 'reader failed with a non-std::exception type %s' % x.get('exc'), {'mutation': k, 'input_hex': open(p, 'rb').read()[:3000].hex()}))
                 elif x in ('ok', 'eof') and part != 'hdr':
                     outcomes['success'] = outcomes.get('success', 0) + 1
             if not r.get('hook_ok', True):
@@ -115,9 +113,6 @@ def run(tier, seed):
             ln = os.path.getsize(dc['path'])
             if r.get('alloc_max', 0) > 2048 * ln + (1 << 20):
                 vs.append(Violation(PROP, '%s:allocation-sized-by-input-field' % PROP, 'decoder: single allocation of %d bytes for a %d-byte input' % (r['alloc_max'], ln), {'case': dc}))
-            for x in r['res']:
-                if isinstance(x, dict) and x.get('exc') not in ALLOWED_EXC and 'exc' in x:
-                    vs.append(Violation(PROP, '%s:foreign-exception:%s' % (PROP, x.get('exc')), 'decoder op failed with %s' % x.get('exc'), {'case': dc}))
         # command-line tools
         _, libd = build.ensure('asan')
         n_tool = 400 if tier == 'quick' else 4000
@@ -197,7 +192,7 @@ def run(tier, seed):
         cov = dict(evaluations=len(inputs) + len(dcases) + tool_runs + mem_runs + fuzz_execs, distinct_nontrivial=len({(k, ln) for k, p, ln in inputs}),
                    rule='structure-aware mutations of valid exporter outputs (%d mutation kinds: length fields up to 2^64-1, boundary integers, wrong majors, nesting to 200000, truncation, malformed names/addresses, ...) '
                         'through CdnsReader + every accessor and renderer, raw decoder operations, the five CLI tools (ASan+UBSan build) and valgrind memcheck (plain build); '
-                        'distinct = distinct (mutation kind, input length); oracle: no sanitizer report / signal / foreign exception, single allocation <= 2048*len+1MiB, CPU <= 5 s' % len(mutate.KINDS),
+                        'distinct = distinct (mutation kind, input length); oracle: no sanitizer report / signal / exception that is not derived from std::exception (it would terminate the driver), single allocation <= 2048*len+1MiB, CPU <= 5 s' % len(mutate.KINDS),
                    samples=[{'mutation': inputs[i][0], 'len': inputs[i][2], 'head_hex': open(inputs[i][1], 'rb').read()[:48].hex()} for i in (0, 1, 2)], observed=obs)
         return dict(violations=vs, coverage=cov)
     finally:
